@@ -13,8 +13,9 @@ func RepoSquash(stores context2.Stores, repoName string, opts ...Option) error {
 		return fmt.Errorf("cannot find repo: %s: %v", repoName, err)
 	}
 
-	opts = append(opts, WithMinimalBundle(true)) // limits I/Os with remote store: we only need keys
-
+	// NOTE: bundles are listed with their descriptor, not just from their keys: keys without a descriptor
+	// are leftovers from incomplete (or ongoing) uploads. These must neither count as one of the N latest
+	// bundles, nor be tampered with.
 	bundles, err := ListBundles(repoName, stores, opts...)
 	if err != nil {
 		return err
